@@ -225,9 +225,11 @@ class StubsStringGenerator:
         if class_.constructor:
             constructor_type_vars = class_.constructor.type_var_types
 
+        # The type parameters of this class are collected for its methods; those of the class that was generated
+        # before (or of the outer class) must not be taken for parameters of this one
+        outer_class_generics = self.class_generics
+        self.class_generics = []
         if class_.type_parameters or constructor_type_vars:
-            # We collect the class generics for the methods later
-            self.class_generics = []
             for variance in class_.type_parameters:
                 variance_direction = {
                     VarianceKind.INVARIANT.name: "",
@@ -325,6 +327,9 @@ class StubsStringGenerator:
 
         # Docstring
         docstring = self._create_sds_docstring(class_.docstring, class_indentation, node=class_)
+
+        # The members of this class are done: an outer class goes on with its own type parameters
+        self.class_generics = outer_class_generics
 
         # If the does not have a body, we just return the docstring and signature line
         if not class_text:
